@@ -828,8 +828,9 @@ Scalar __CPROVER_uninterpreted_fmulk(Scalar, Scalar);
                             "Scalar *verif_e11 = &diag_coeff(k); Scalar *verif_e21 = &coeff(k + 1, k); Scalar *verif_e22 = &diag_coeff(k + 1);", {"max": 1}),
                            ("real11", r"e11 = ScalarOp<Scalar>::real\(e11\);", "(*verif_e11) = (*verif_e11);", {"max": 1}),
                            ("real22", r"e22 = ScalarOp<Scalar>::real\(e22\);", "(*verif_e22) = (*verif_e22);", {"max": 1}),
-                           ("e12", r"Scalar e12 = ScalarOp<Scalar>::conj\(e21\);", "Scalar e12 = (*verif_e21);", {"max": 1}),
-                           ("det", r"if \(e11 \* e22 - e12 \* e21 == Scalar\(0\)\)", "if (FMULK((*verif_e11), (*verif_e22)) - FMULK(e12, (*verif_e21)) == (Scalar)0)", {"max": 1}),
+                           # the singularity test (and the temporary it uses) may have been removed or rewritten: the harness then decides whether NumericalIssue is still reported
+                           ("e12", r"Scalar e12 = ScalarOp<Scalar>::conj\(e21\);", "Scalar e12 = (*verif_e21);", {"min": 0, "max": 1}),
+                           ("det", r"if \(e11 \* e22 - e12 \* e21 == Scalar\(0\)\)", "if (FMULK((*verif_e11), (*verif_e22)) - FMULK(e12, (*verif_e21)) == (Scalar)0)", {"min": 0, "max": 1}),
                            ("maps", r"MapVec l1\(l1ptr, ldim\), l2\(l2ptr, ldim\);", "MAPVEC_RANGE(B, l1ptr, ldim, 0); MAPVEC_RANGE(B, l2ptr, ldim, 0);", {"max": 1}),
                            ("X", r"Eigen::Matrix<Scalar, Eigen::Dynamic, 2> X\(ldim, 2\);", "__CPROVER_assert(ldim >= 0, @Q@Eigen: matrix dims >= 0@Q@);", {"max": 1}),
                            ("solve", r"solve_left_2x2\(e11, e21, e22, l1, l2, X\);", "/* value kernel solve_left_2x2: operands l1, l2 (ldim) and X (ldim x 2) conform by construction */;", {"max": 1}),
